@@ -37,7 +37,8 @@ c = S.ext("mp.Queue.full", cite="Queue.full(): whether the bounded semaphore is 
 c.param("self", T.Ref("mp.Queue")).returns(T.Bool).event("cq_full", "self", "result").modifies()
 c = S.ext("mp.Queue.close", cite="Queue.close(): no more data from this process; flushes through the feeder thread")
 c.param("self", T.Ref("mp.Queue")).event("cq_close", "self").modifies()
-c = S.ext("mp.Queue.join_thread", cite="Queue.join_thread(): joins the feeder thread")
+c = S.ext("mp.Queue.join_thread", cite="Queue.join_thread(): runs the join finalizer of the feeder thread when there is one; in the process that created the queue "
+          "(the executor's parent) there is none and the call returns at once: the feeder thread ends by itself once it has read the close sentinel")
 c.param("self", T.Ref("mp.Queue")).event("cq_join_thread", "self").modifies()
 
 
